@@ -16,14 +16,18 @@ MANIFEST = dict(
           "`uses`; C10_plain_in_chain unguarded); a name after a dot resolves to one declaration per declaring ancestor, "
           "nearest first (C10_member; C10_member_in_context from inside any class, the enclosing one included); the declared "
           "names of fields, constants, types and methods; every target is a declaration of that name in the linked entity (C10_target_*); letter "
-          "case of identifier and class is irrelevant; unresolved -> empty; the lineage fuel suffices in a forest. Three "
+          "case of identifier and class is irrelevant; unresolved -> empty; the lineage fuel suffices in a forest; re-casing the references STORED in the "
+          "workspace (parent classes, uses, declared type names incl. aliases / refto / listof; ws_sim) leaves the symbol "
+          "tables, every definition answer and the static class of every dotted operand unchanged "
+          "(C10_workspace_recase*, no well-formedness needed; C10_spelling_test_immaterial). Three "
           "*_refuted theorems state where /repo departs from the wording (uses, class names, forward reference in a chain); "
           "one states the defect of the step repaired by 945552f. The model is tied to /repo by rendering generated "
           "workspaces (forests to depth 4, overriding, shadowing, modules, uses, aliases, chains, calls, any letter case) to "
           "Gold files and comparing, for every identifier occurrence, the links of generate_goto_definitions (twice, 10 s "
           "watchdog) with the extracted model's answer mapped through the table of rendered declaration positions; an "
           "independent oracle evaluates the property's wording on the implementation's answers; every returned range is "
-          "checked well-formed with selection inside target."),
+          "checked well-formed with selection inside target. Metamorphic stage: pairs (workspace, same workspace with the stored "
+          "references re-cased) at identical positions: implementation and model answer both variants identically."),
     note=("partial: proved for the scoping core on abstract workspaces; the rendering of a workspace to files, the parser, the "
           "annotated tree, the position -> node step (search_encasing_node) and the eval-type annotation of expressions are "
           "validated by the differential run only. Trusted: Coq kernel, extraction (ExtrOcamlBasic), harness, renderer in "
@@ -72,6 +76,7 @@ def correspondence(ctx, broken_obligations=()):
         v.coverage = dict(getattr(v, "coverage", {}) or {}, **meta)
         raise
     cov.update(meta)
+    cov.update(S.recase_stage(ctx, PID, KINDS))
     return cov
 
 
